@@ -30,6 +30,35 @@ func findSegmentWithID(seqNo int, segments []*playlist.MediaSegment, id int) (*p
 	return segments[index], index, len(segments) - index
 }
 
+// byteRangeStart returns the start of the byte range of a segment.
+// If it is not present, the range begins at the next byte
+// following the range of the previous segment (RFC 8216, 4.3.2.2).
+func byteRangeStart(segments []*playlist.MediaSegment, pos int) *uint64 {
+	seg := segments[pos]
+
+	if seg.ByteRangeStart != nil || seg.ByteRangeLength == nil {
+		return seg.ByteRangeStart
+	}
+
+	start := uint64(0)
+
+	for i := pos - 1; i >= 0; i-- {
+		prev := segments[i]
+		if prev.URI != seg.URI || prev.ByteRangeLength == nil {
+			break
+		}
+
+		start += *prev.ByteRangeLength
+
+		if prev.ByteRangeStart != nil {
+			start += *prev.ByteRangeStart
+			break
+		}
+	}
+
+	return &start
+}
+
 func dateTimeOfPreloadHint(pl *playlist.Media) *time.Time {
 	if len(pl.Segments) == 0 {
 		return nil
@@ -342,7 +371,7 @@ func (d *clientStreamDownloader) fillSegmentQueue(
 	v := pl.MediaSequence + segPos
 	d.curSegmentID = &v
 
-	byts, err := d.downloadSegment(ctx, seg.URI, seg.ByteRangeStart, seg.ByteRangeLength)
+	byts, err := d.downloadSegment(ctx, seg.URI, byteRangeStart(pl.Segments, segPos), seg.ByteRangeLength)
 	if err != nil {
 		return err
 	}
